@@ -36,18 +36,19 @@ import (
 )
 
 type input struct {
-	K      string   `json:"k"`
-	D      int      `json:"d,omitempty"`
-	S      string   `json:"s,omitempty"`
-	B      []byte   `json:"b,omitempty"` // byte-level inputs (base64 in JSON)
-	T      string   `json:"t,omitempty"`
-	Signed bool     `json:"signed,omitempty"`
-	W      int      `json:"w,omitempty"`
-	E      int      `json:"e,omitempty"` // entry point of the byte-level fuzz / encoder number
-	D2     int      `json:"d2,omitempty"`
-	L      []string `json:"l,omitempty"`   // word list for the encoders
-	Env    [][]byte `json:"env,omitempty"` // raw environment block of the child process
-	Cfg    int      `json:"cfg,omitempty"`
+	K      string     `json:"k"`
+	D      int        `json:"d,omitempty"`
+	S      string     `json:"s,omitempty"`
+	B      []byte     `json:"b,omitempty"` // byte-level inputs (base64 in JSON)
+	T      string     `json:"t,omitempty"`
+	Signed bool       `json:"signed,omitempty"`
+	W      int        `json:"w,omitempty"`
+	E      int        `json:"e,omitempty"` // entry point of the byte-level fuzz / encoder number
+	D2     int        `json:"d2,omitempty"`
+	L      []string   `json:"l,omitempty"`   // word list for the encoders
+	Env    [][]byte   `json:"env,omitempty"` // raw environment block of the child process
+	Cfg    int        `json:"cfg,omitempty"`
+	M2     [][]string `json:"m2,omitempty"` // per field: tag "kind\x00value" pairs
 }
 
 const deadline = 2 * time.Second
@@ -259,7 +260,7 @@ func run1(raw json.RawMessage, skipOut *bool) driver.Result {
 			skip = true
 			return
 		}
-		if what != "" && nDirect < 1 {
+		if what != "" && (nDirect < 1 || os.Getenv("C16_ALL_DIRECT") != "") {
 			nDirect++
 			q := strconv.QuoteToASCII(s)
 			if len(q) > 200 {
@@ -272,6 +273,10 @@ func run1(raw json.RawMessage, skipOut *bool) driver.Result {
 	switch in.K {
 	case "decb", "strb", "islb", "unqb":
 		res := runBytes(in, fail)
+		res.Direct = direct
+		return res
+	case "tags":
+		res := runTags(in, fail)
 		res.Direct = direct
 		return res
 	case "refs":
@@ -370,7 +375,7 @@ func run(raw json.RawMessage) driver.Result {
 	}
 	// a broken tree can fail on most inputs: report the first 25 through the direct oracle
 	if len(res.Direct) > 0 {
-		if directReported >= 25 {
+		if directReported >= 25 && os.Getenv("C16_ALL_DIRECT") == "" {
 			res.Direct = nil
 		}
 		directReported++
@@ -475,6 +480,8 @@ func gen(r *coqfmt.Rng, n int, tier string) []json.RawMessage {
 			add(genDoc(r))
 		case x >= 91:
 			add(genCaseShift(r))
+		case x >= 89:
+			add(genTags(r))
 		case x < 3:
 			add(genBytesCase(r, tg))
 		case x < 7:
@@ -539,8 +546,10 @@ func corpus() []json.RawMessage {
 	}
 	extraCorpus(add)
 	docCorpus(add)
+	bomCorpus(add)
 	caseShiftCorpus(add)
 	refsCorpus(add)
+	tagsCorpus(add)
 	return out
 }
 
